@@ -8,7 +8,7 @@ SPEC = {
         {'pkg': 'execute', 'src': 'harness/execute/c07_test.go', 'test': 'TestVerif_C07', 'fakes': True,
          'sinks': {'C07_merge': 'c07_judge'}, 'n': {'quick': 850, 'thorough': 28000}},
     ],
-    'known': {'1': 'F13d', '2': 'F13e'},
+    'known': {'2': 'F13e'},
     'rule': 'DONs of 4..10 oracles (ids from 0..15), 1..3 source chains + destination, per-chain f in 1..3 (class weird-f: '
             '0, -1, -2, destination missing), F in 1..3 (class below-F: above the number of observations); an agreed world '
             '(1..3 commit reports per chain, 1..3 messages each, 0..2 token slots, costly ids, sender nonces) where every '
@@ -28,12 +28,12 @@ SPEC = {
     'level_text': 'Proof: Coq theorems over the executable model of ValidateObservation and the five merges: every merged commit '
                   'report / message / ready token slot / nonce / costly id has at least f+1 distinct reporting oracles of the identical '
                   'item and no validated observation votes twice for one item, for all fChain maps and all validated observation lists '
-                  'with distinct oracles; items with that support are always present (nothing blocks them) unless a chain key is '
-                  'unknown to fChain (recorded F13d) or a token slot index lacks support (recorded F13e); refutation theorems for the '
-                  'code before the F13a/F13c repairs. Correspondence: ValidateObservation + getConsensusObservation against the model on generated DONs every run',
+                  'with distinct oracles; items with that support are always present and the merge never fails on validated observations '
+                  '(C07_non_blocking at full strength after the F13d repair), except that a token slot index without support makes a '
+                  'message\'s token data not ready (recorded F13e); refutation theorems for the code before the F13a/F13c/F13d repairs. Correspondence: ValidateObservation + getConsensusObservation against the model on generated DONs every run',
     'level_note': 'Trusted: Coq kernel, hand-written model, differential harness, interning of the %v identity. No axioms. '
                   'Two valid items with one map key (same sequence number / same sender) are stored by Go map order (F17, property C10): '
                   'the check accepts any possible assignment.',
-    'modelled': 'validateObserverReadingEligibility, validateObservedSequenceNumbers, validateMessageKeys, merge{Commit,Message,Token,Nonce}Observations, '
+    'modelled': 'validateObserverReadingEligibility, validateObserverDataEligibility, validateObservedSequenceNumbers, validateMessageKeys, validateObservedChains, merge{Commit,Message,Token,Nonce}Observations, '
                 'mergeCostlyMessages, getConsensusObservation; JSON codec and home-chain lookups are inputs',
 }
